@@ -6,7 +6,7 @@ import Hms.Check.Syntax
 `check : PProg → List Diag` mirrors the analyzer's per-construct rules
 (`analyzer/expression.go`, `statement.go`, `topLevel.go functionSignature /
 functionDefinition / analyzeParams`, `analyzer.go analyzeModule`) for the core language,
-*after* the repairs A1–A7, A9, A10, A14 (DESIGN §9). Error recovery is modelled too
+*after* the repairs A1–A7, A9, A10, A14, S1 (DESIGN §9). Error recovery is modelled too
 (`unknown` results, dropped arguments …) because
 the behavioural tie compares the multiset of error classes on ill-typed programs as well.
 
@@ -30,6 +30,7 @@ inductive Rule where
   | breakOutsideLoop | continueOutsideLoop | duplicateDefinition | nonConstantGlobal | implicitAny
   | mainShape | annotationMismatch | elementMismatch | notCallable | indexMismatch | impossibleCast
   | missingDefault | loopBody | matchLiteral | returnOutsideFunction | nullArgument | unreachable
+  | closureAcrossThreads | spawnNonFunction
   deriving Repr, DecidableEq, Inhabited
 
 def Rule.name : Rule → String
@@ -44,7 +45,8 @@ def Rule.name : Rule → String
   | .notCallable => "notCallable" | .indexMismatch => "indexMismatch" | .impossibleCast => "impossibleCast"
   | .missingDefault => "missingDefault" | .loopBody => "loopBody" | .matchLiteral => "matchLiteral"
   | .returnOutsideFunction => "returnOutsideFunction" | .nullArgument => "nullArgument"
-  | .unreachable => "unreachable"
+  | .unreachable => "unreachable" | .closureAcrossThreads => "closureAcrossThreads"
+  | .spawnNonFunction => "spawnNonFunction"
 
 /-- An error-level diagnostic: message class (what the Go analyzer prints) and rule class. -/
 structure Err where
@@ -424,6 +426,18 @@ def letRule (Γ : Ctx) (name : String) (ann : Option PTy) (e : Res) (isGlobal : 
     if isGlobal && (lookupTy name Γ.vars).isSome then [⟨.duplicateGlobal, .duplicateDefinition⟩] else []
   { errs := e.errs ++ e1 ++ v.1 ++ e3, ty := .null, ex := e.ex, tys := varTy :: e.tys, vars := (name, varTy) :: Γ.vars }
 
+/-- `identExpression` before the tail of `Analyzer.expression`: the base of a `spawn` -/
+def identRes (Γ : Ctx) (name : String) : Res :=
+  match Γ.lookup name with
+  | some t => { ty := t, tys := [t] }
+  | none => { errs := [⟨.unknownIdent, .unknownIdent⟩], ty := .unknown, tys := [.unknown] }
+
+/-- `spawn name(…)` on a callable `name`: only a function of the program can be spawned, not a
+function value (`isProgramFunction`: a variable — local, parameter, global, builtin — takes
+precedence over a function of the same name; imported functions are outside of the model) -/
+def spawnTargetErr (Γ : Ctx) (name : String) : List Err :=
+  if (lookupTy name Γ.vars).isSome then [⟨.spawnNonFunction, .spawnNonFunction⟩] else []
+
 def loopBodyErr (t : Ty) : List Err :=
   if loopBodyOK t then [] else [⟨.loopBody, .loopBody⟩]
 
@@ -509,6 +523,32 @@ def checkExpr (Γ : Ctx) (strict : Bool) : PExpr → Res
     | .bad =>
       wrap strict { errs := b.errs ++ [⟨.notCallable, .notCallable⟩], ty := .unknown, ex := b.ex, cst := false,
                     tys := .unknown :: b.tys }
+  /- `callExpression` with `IsSpawn`: the arguments must not be function values, the callee must be a
+     function of the program, and the expression has no value (`null`) whatever the callee returns -/
+  | .spawn name args =>
+    let b := wrap true (identRes Γ name)
+    match callee b.ty with
+    | .fn ps _ =>
+      if args.length != ps.length then
+        wrap strict { errs := b.errs ++ [⟨.arity, .arity⟩] ++ spawnTargetErr Γ name, ty := .null, ex := b.ex, cst := false,
+                      tys := .null :: b.tys }
+      else
+        let r := checkSpawnArgs Γ (ps.map (·.2)) Option.none args
+        wrap strict { errs := b.errs ++ r.errs ++ spawnTargetErr Γ name, ty := .null, ex := b.ex || r.ex, cst := false,
+                      tys := .null :: (b.tys ++ r.tys) }
+    | .var ps rest _ =>
+      if ps.length != 0 && args.length < ps.length then
+        wrap strict { errs := b.errs ++ [⟨.arity, .arity⟩] ++ spawnTargetErr Γ name, ty := .null, ex := b.ex, cst := false,
+                      tys := .null :: b.tys }
+      else
+        let r := checkSpawnArgs Γ ps (some rest) args
+        wrap strict { errs := b.errs ++ r.errs ++ spawnTargetErr Γ name, ty := .null, ex := b.ex || r.ex, cst := false,
+                      tys := .null :: (b.tys ++ r.tys) }
+    | .div =>
+      wrap strict { errs := b.errs, ty := .null, ex := b.ex, cst := false, tys := .null :: b.tys }
+    | .bad =>
+      wrap strict { errs := b.errs ++ [⟨.notCallable, .notCallable⟩], ty := .null, ex := b.ex, cst := false,
+                    tys := .null :: b.tys }
   | .index base idx =>
     let b := checkExpr Γ true base
     let i := checkExpr Γ true idx
@@ -609,6 +649,18 @@ def checkArgs (Γ : Ctx) (ps : List Ty) (rest : Option Ty) : PExprs → ArgsRes
     let own : List Err :=
       if r.ty.kind == .null then [⟨.nullArgument, .nullArgument⟩] else tcErr true r.ty (argParam ps rest) .argMismatch
     let rr := checkArgs Γ ps.tail rest as
+    { errs := r.errs ++ own ++ rr.errs, ex := r.ex || rr.ex, tys := (if own.isEmpty then r.tys else []) ++ rr.tys }
+/-- `callArgs` with `baseIsSpawn`: an argument of a function type is rejected (and dropped)
+instead of being checked against the parameter -/
+def checkSpawnArgs (Γ : Ctx) (ps : List Ty) (rest : Option Ty) : PExprs → ArgsRes
+  | .nil => {}
+  | .cons a as =>
+    let r := checkExpr Γ true a
+    let own : List Err :=
+      if r.ty.kind == .null then [⟨.nullArgument, .nullArgument⟩]
+      else if r.ty.kind == .fn then [⟨.closureAcrossThreads, .closureAcrossThreads⟩]
+      else tcErr true r.ty (argParam ps rest) .argMismatch
+    let rr := checkSpawnArgs Γ ps.tail rest as
     { errs := r.errs ++ own ++ rr.errs, ex := r.ex || rr.ex, tys := (if own.isEmpty then r.tys else []) ++ rr.tys }
 /-- the arms of `matchExpression` (after repair A5) -/
 def checkArms (Γ : Ctx) (ctl : Ty) (st : MSt) : PArms → ArmsRes
@@ -809,6 +861,7 @@ def unreachE : PExpr → Nat
   | .infix _ l r => unreachE l + unreachE r
   | .assign _ l r => unreachE l + unreachE r
   | .call b as => unreachE b + unreachEs as
+  | .spawn _ as => unreachEs as
   | .index b i => unreachE b + unreachE i
   | .member b _ _ => unreachE b
   | .cast e _ => unreachE e
